@@ -911,8 +911,15 @@ cnt_cand(const bitint383_t *cand)
 	return n;
 }
 
+/* shifted candidates may land in the year of their period, in one of its
+ * neighbours or, for shifts of about a year from a day at the turn of the
+ * year, two years away: five sets, the period's own comes first */
+#define NCAND		(5U)
+#define CAND_IDX(iy)	((iy) == 0 ? 0U : (iy) == -1 ? 1U : (iy) == 1 ? 2U : \
+			 (iy) == -2 ? 3U : 4U)
+
 static void
-shift(bitint383_t cand[static 3U], const unsigned int y, echs_shift_t sh)
+shift(bitint383_t cand[static NCAND], const unsigned int y, echs_shift_t sh)
 {
 
 	if (LIKELY(!sh)) {
@@ -921,7 +928,7 @@ shift(bitint383_t cand[static 3U], const unsigned int y, echs_shift_t sh)
 
 	if (echs_shift_dvalue(sh)) {
 		const int d = echs_shift_dvalue(sh);
-		bitint383_t res[3U] = {0U};
+		bitint383_t res[NCAND] = {0U};
 		int c;
 
 		/* go through candidates and shift */
@@ -947,22 +954,26 @@ shift(bitint383_t cand[static 3U], const unsigned int y, echs_shift_t sh)
 				}
 				goto reassess;
 			}
+			if (UNLIKELY(nu_y + 2U < y || nu_y > y + 2U)) {
+				/* outside the five years we keep track of */
+				continue;
+			}
 			/* assign now */
-			ass_bi383(&res[(nu_y != y) << (nu_y > y)], pack_cand(nu_m, nu_d));
+			ass_bi383(&res[CAND_IDX((int)nu_y - (int)y)], pack_cand(nu_m, nu_d));
 		}
 		memcpy(cand, res, sizeof(res));
 	}
 	if (echs_shift_bday_p(sh)) {
 		/* business day shifts */
 		const int b = echs_shift_bvalue(sh);
-		bitint383_t res[3U] = {0U};
+		bitint383_t res[NCAND] = {0U};
 		int c;
 
 		/* go through candidates and shift, the day shift above might
 		 * have left candidates in the year before or after as well */
-		for (int iy = -1; iy <= 1; iy++)
+		for (int iy = -2; iy <= 2; iy++)
 		for (bitint_iter_t ci = 0UL;
-		     (c = bi383_next(&ci, &cand[(iy != 0) << (iy > 0)]), ci);) {
+		     (c = bi383_next(&ci, &cand[CAND_IDX(iy)]), ci);) {
 			const struct md_s md = unpack_cand(c);
 			int nu_d = md.d;
 			int nu_m = md.m;
@@ -1010,12 +1021,12 @@ shift(bitint383_t cand[static 3U], const unsigned int y, echs_shift_t sh)
 				}
 				goto reassessB;
 			}
-			if (UNLIKELY(nu_y + 1U < y || nu_y > y + 1U)) {
-				/* outside the three years we keep track of */
+			if (UNLIKELY(nu_y + 2U < y || nu_y > y + 2U)) {
+				/* outside the five years we keep track of */
 				continue;
 			}
 			/* assign now */
-			ass_bi383(&res[(nu_y != y) << (nu_y > y)], pack_cand(nu_m, nu_d));
+			ass_bi383(&res[CAND_IDX((int)nu_y - (int)y)], pack_cand(nu_m, nu_d));
 		}
 		memcpy(cand, res, sizeof(res));
 	}
@@ -1130,7 +1141,7 @@ rrul_fill_yly(echs_instant_t *restrict tgt, size_t nti, rrulsp_t rr)
 
 	/* fill up the array the hard way */
 	for (res = 0UL, tries = 64U; res < nti && --tries && y < MAX_YEAR; y += rr->inter) {
-		bitint383_t cand[3U] = {0U};
+		bitint383_t cand[NCAND] = {0U};
 		int yd;
 
 		/* stick to note 2 on page 44, RFC 5545 */
@@ -1202,9 +1213,9 @@ rrul_fill_yly(echs_instant_t *restrict tgt, size_t nti, rrulsp_t rr)
 		shift(cand, y, rr->shift);
 
 		/* now check the bitset */
-		for (int iy = -1; iy <= 1; iy++) {
+		for (int iy = -2; iy <= 2; iy++) {
 			for (bitint_iter_t all = 0UL;
-			     res < nti && (yd = bi383_next(&all, &cand[(iy != 0) << (iy > 0)]), all);) {
+			     res < nti && (yd = bi383_next(&all, &cand[CAND_IDX(iy)]), all);) {
 				for (ENUM_INIT(e, iS, iM, iH);
 				     res < nti && ENUM_COND(e, iS, iM, iH);
 				     ENUM_ITER(e, iS, iM, iH)) {
@@ -1391,7 +1402,7 @@ rrul_fill_mly(echs_instant_t *restrict tgt, size_t nti, rrulsp_t rr)
 		     } while (bui31_has_bits_p(rr->mon) &&
 			      !bui31_has_bit_p(rr->mon, m));
 	     })) {
-		bitint383_t cand[3U] = {0U};
+		bitint383_t cand[NCAND] = {0U};
 		int yd;
 
 		/* stick to note 1 on page 44, RFC 5545 */
@@ -1428,9 +1439,9 @@ rrul_fill_mly(echs_instant_t *restrict tgt, size_t nti, rrulsp_t rr)
 		shift(cand, y, rr->shift);
 
 		/* now check the bitset */
-		for (int iy = -1; iy <= 1; iy++) {
+		for (int iy = -2; iy <= 2; iy++) {
 			for (bitint_iter_t all = 0UL;
-			     res < nti && (yd = bi383_next(&all, &cand[(iy != 0) << (iy > 0)]), all);) {
+			     res < nti && (yd = bi383_next(&all, &cand[CAND_IDX(iy)]), all);) {
 				for (ENUM_INIT(e, iS, iM, iH);
 				     res < nti && ENUM_COND(e, iS, iM, iH);
 				     ENUM_ITER(e, iS, iM, iH)) {
